@@ -152,8 +152,20 @@ const (
 type ctxKey struct{}
 
 func (a *actorT) park(code int, srcs ...string) {
-	a.parkCh <- parkEvt{code: code, srcs: srcs}
-	<-a.resume
+	select {
+	case a.parkCh <- parkEvt{code: code, srcs: srcs}:
+	case <-a.w.quit:
+		runtime.Goexit()
+	}
+	a.waitResume()
+}
+
+func (a *actorT) waitResume() {
+	select {
+	case <-a.resume:
+	case <-a.w.quit:
+		runtime.Goexit()
+	}
 }
 
 var gidRe = regexp.MustCompile(`^goroutine (\d+) \[`)
@@ -201,14 +213,29 @@ func gstate(gid int64) string {
 	if e := bytes.IndexByte(st, ']'); e >= 0 {
 		st = st[:e]
 	}
-	inTindex := bytes.Contains(blk, []byte("pkg/tindex.(*inmemService)"))
 	switch {
-	case bytes.HasPrefix(st, []byte("sleep")) && inTindex && bytes.Contains(blk, []byte("time.Sleep")):
+	case bytes.HasPrefix(st, []byte("sleep")) && calledFromTindex(blk, "time.Sleep("):
 		return "sleep"
-	case (bytes.HasPrefix(st, []byte("sync.Mutex.Lock")) || bytes.HasPrefix(st, []byte("semacquire"))) && inTindex:
+	case (bytes.HasPrefix(st, []byte("sync.Mutex.Lock")) || bytes.HasPrefix(st, []byte("semacquire"))) && calledFromTindex(blk, "sync.(*Mutex).Lock("):
 		return "mutex"
 	}
 	return "other"
+}
+
+// calledFromTindex: in the goroutine's stack, the frame `fn` is called directly by a method of
+// tindex.inmemService (so the sleep is the retry loop's, the mutex is the service lock)
+func calledFromTindex(blk []byte, fn string) bool {
+	lines := bytes.Split(blk, []byte("\n"))
+	for i, l := range lines {
+		if bytes.HasPrefix(l, []byte(fn)) {
+			// lines: fn(args) / \tfile:line / caller(args)
+			if i+2 < len(lines) && bytes.HasPrefix(lines[i+2], []byte("github.com/logrange/logrange/pkg/tindex.(*inmemService).")) {
+				return true
+			}
+			return false
+		}
+	}
+	return false
 }
 
 // ---------------------------------------------------------------- stubs
@@ -323,10 +350,17 @@ type world struct {
 	srcIdx map[string]int
 	srcs   []string
 	srcTag map[string]int
+	quit   chan struct{}
+}
+
+// close ends the case: retry loops leave with "already shut-down", parked actors exit
+func (w *world) close() {
+	close(w.quit)
+	go w.ti.(interface{ Shutdown() }).Shutdown() // blocks for ever if a panic left the service lock locked
 }
 
 func newWorld(pre int, progs [][]Proc) (*world, error) {
-	w := &world{srcIdx: map[string]int{}, srcTag: map[string]int{}}
+	w := &world{srcIdx: map[string]int{}, srcTag: map[string]int{}, quit: make(chan struct{})}
 	w.ti = tindex.NewInmemServiceWithConfig(tindex.InMemConfig{DoNotSave: true})
 	w.ps = partition.NewService()
 	w.ps.TIndex = w.ti
@@ -343,10 +377,11 @@ func newWorld(pre int, progs [][]Proc) (*world, error) {
 	}
 	for i, p := range progs {
 		a := &actorT{w: w, idx: i, prog: p, resume: make(chan struct{}), parkCh: make(chan parkEvt, 2), status: stParked}
+		w.actors = append(w.actors, a)
 		if len(p) == 0 {
 			a.status = stFinished
+			continue
 		}
-		w.actors = append(w.actors, a)
 		ready := make(chan struct{})
 		go a.run(ready)
 		<-ready
@@ -413,14 +448,20 @@ func (a *actorT) run(ready chan struct{}) {
 	close(ready)
 	defer func() {
 		if r := recover(); r != nil {
-			a.parkCh <- parkEvt{panicv: r}
+			select {
+			case a.parkCh <- parkEvt{panicv: r}:
+			case <-a.w.quit:
+			}
 		}
 	}()
-	<-a.resume
+	a.waitResume()
 	for i, p := range a.prog {
 		a.exec(p)
 		if i == len(a.prog)-1 {
-			a.parkCh <- parkEvt{code: 0, done: true}
+			select {
+			case a.parkCh <- parkEvt{code: 0, done: true}:
+			case <-a.w.quit:
+			}
 			return
 		}
 		a.park(0)
